@@ -816,6 +816,41 @@ func c09Crafted(rng *core.RNG) []c09Blob {
 		wb, _ := imggen.WebPSpec{Kind: "VP8X", W: 5, H: 7, ICC: mid, Payload: []byte{1, 2, 3}}.Build()
 		add("load", "WebP", wb, fmt.Sprintf("nested-deflate: the same %d-byte profile in a WebP", len(mid)))
 	}
+	// an mluc record whose offset and length are each within the tag but whose sum is not (both
+	// fields tuned together), in tags of several sizes and with the record first or last
+	for _, n := range []int{64, 200, 1400, 70000} {
+		for _, pr := range [][2]int{{n - 8, n - 8}, {n/2 + 4, n/2 + 4}, {n - 2, 4}, {n - 1, 1}, {28, n - 20}, {n, 2}, {n - 2, n}} {
+			for _, first := range []bool{true, false} {
+				tag := make([]byte, n)
+				copy(tag, "mluc")
+				binary.BigEndian.PutUint32(tag[8:], 2)
+				binary.BigEndian.PutUint32(tag[12:], 12)
+				good, odd := 16, 28
+				if !first {
+					good, odd = 28, 16
+				}
+				copy(tag[good:], "enUS")
+				binary.BigEndian.PutUint32(tag[good+4:], 8)
+				binary.BigEndian.PutUint32(tag[good+8:], 40)
+				copy(tag[odd:], "deDE")
+				binary.BigEndian.PutUint32(tag[odd+4:], uint32(pr[1]))
+				binary.BigEndian.PutUint32(tag[odd+8:], uint32(pr[0]))
+				copy(tag[40:], []byte{0, 'g', 0, 'o', 0, 'o', 0, 'd'})
+				prof, _ := imggen.ICCSpec{Header: imggen.MinimalHeader(true), Tags: []imggen.ICCTag{{Sig: "desc", Data: tag}, {Sig: "cprt", Data: []byte{1, 2, 3, 4}}}}.Build()
+				add("icc", "ICC", prof, fmt.Sprintf("mluc-offset-plus-length: a %d-byte tag with a record at offset %d of length %d (odd record first: %v)", n, pr[0], pr[1], !first))
+			}
+		}
+	}
+	// thousands of small iCCP chunks none of which inflates, after a valid IHDR (whatever is recorded
+	// about each failure must not grow with the number of failures before it)
+	for _, cnt := range []int{2000, 8000, 30000} {
+		var pre []imggen.PNGChunk
+		for i := 0; i < cnt; i++ {
+			pre = append(pre, imggen.PNGChunk{Type: "iCCP", Data: []byte{'p', 0, 0, 0x12 + byte(i), 0x34, byte(i >> 8)}})
+		}
+		b, _ := imggen.PNGSpec{W: 5, H: 7, Depth: 8, ColorType: 2, Pre: pre, IDAT: []byte{1}}.Build()
+		add("load", "PNG", b, fmt.Sprintf("png-many-bad-iccp: %d iCCP chunks that do not inflate (%d input bytes)", cnt, len(b)))
+	}
 	// two declared numbers that vouch for each other (a container size and a chunk length inside it,
 	// both huge, the file a few dozen bytes): nothing of that size may be set aside before it has arrived
 	for _, pr := range [][2]uint32{{0x7FFFFFFF, 0x30000000}, {0xFFFFFFFE, 0xF0000000}, {0x40000000, 0x3FFFFF00}, {0x10000000, 0x0FFFFF00}} {
